@@ -146,8 +146,9 @@ class Site(object):
             return 'page', _http(200, 'OK', ''.join(parts).encode(), 'text/html')
         if kind == 'sitemap':
             locs = ''.join('<url><loc>%s</loc></url>' % (l.get('spelling') or self.url_text(l['to'])) for l in d.get('links', []))
-            body = ('<?xml version="1.0" encoding="UTF-8"?>\n<urlset xmlns="http://www.sitemaps.org/schemas/sitemap/0.9">'
-                    + locs + '</urlset>\n')
+            # ('nodecl': without the XML declaration, which is optional)
+            body = (('' if d.get('nodecl') else '<?xml version="1.0" encoding="UTF-8"?>\n')
+                    + '<urlset xmlns="http://www.sitemaps.org/schemas/sitemap/0.9">' + locs + '</urlset>\n')
             return 'page', _http(200, 'OK', body.encode(), 'text/xml')
         if kind == 'robotsfile':
             # ('pad': that many bytes of comments in front of the Sitemap lines, whose customary place is the end)
